@@ -14,6 +14,8 @@ pub(crate) use self::prioritize::Prioritized;
 pub(crate) use self::recv::Open;
 pub(crate) use self::send::PollReset;
 pub(crate) use self::streams::{DynStreams, OpaqueStreamRef, StreamRef, Streams};
+#[cfg(feature = "verif")]
+pub use self::streams::{VerifProbe, VerifStats};
 
 use self::buffer::Buffer;
 use self::counts::Counts;
